@@ -252,6 +252,31 @@ func %s() {
 `, before, name, text, extra)
 		fam.Instances = append(fam.Instances, Instance{Func: name, Stratum: "many-locals", Desc: fmt.Sprintf("%d locals before a block of five assignments", before), Text: text, Expect: []string{"executed"}})
 	}
+	sameTargetText := "rule \"r\" begin\n conc {\n  obj.X0 = missing\n  obj.X0 = w(0, v0, false)\n  a = missing2\n  a = w(1, v1, false)\n  a = w(2, v2, false)\n }\n ev(\"after\")\nend\n"
+	fmt.Fprintf(&b, `
+// several assignments to one target, the first of them failing: every statement still runs exactly once
+func H_conc_same_target() {
+	v := symVals("v", 3)
+	dc := newDC(nil)
+	addVals(dc, "v", v)
+	dc.Add("obj", &Obj{Inner: &Inner{}})
+	dc.Add("w", w)
+	rb := buildText(dc, %q)
+	eng := engine.NewGengine()
+	err := eng.Execute(rb, true)
+	vnd.Event("ret")
+	vnd.Quiesce()
+	vnd.Reach("executed")
+	vnd.RequireJoined("ret")
+	vnd.StopIfViolated()
+	for i := int64(0); i < 3; i++ {
+		vnd.Assert(vnd.Count(mname(i, ".s")) == 1, "every member runs exactly once")
+	}
+	vnd.Assert(err != nil, "the block fails iff a member fails")
+	vnd.Assert(vnd.Count("after") == 0, "the next statement runs iff the block succeeded")
+}
+`, sameTargetText)
+	fam.Instances = append(fam.Instances, Instance{Func: "H_conc_same_target", Stratum: "same-target", Desc: "assignments to one target of which the first fails", Text: sameTargetText, Expect: []string{"executed"}})
 	argText := "rule \"r\" begin\n conc {\n  use(tick(0), missing)\n  obj.Use(tick(1), missing)\n  obj.Inner.Use(tick(2), missing)\n  a = use(tick(3), missing)\n }\n ev(\"after\")\nend\n"
 	overlapText := "rule \"r\" begin\n gate()\n conc {\n  first()\n  second()\n }\n ev(\"after\")\nend\n"
 	fmt.Fprintf(&b, `
